@@ -46,6 +46,9 @@ func (inv *IndexInvertedString) Search(options models.SearchStringOptions) (*roa
 	query := options.Value
 	if !inv.params.CaseSensitive {
 		query = strings.ToLower(query)
+		// The end of a range must be folded like its start, the index only
+		// holds lower-cased keys.
+		options.EndValue = strings.ToLower(options.EndValue)
 	}
 	return inv.inner.Search(query, options.EndValue, options.Operator)
 }
